@@ -187,6 +187,27 @@ func c01ExtraSpecs(c *core.Check, rng *rand.Rand) ([]*aspec.ASpec, []string) {
 	} else {
 		return nil, nil
 	}
+	// the same pairs far from the root: mounted under three and under five literal segments
+	if rsets, ok := routeNameSets(c, false); ok {
+		for di, deep := range [][]string{{"k", "m", "n"}, {"k", "m", "n", "o", "q"}} {
+			step := len(rsets)/40 + 1
+			for i := rng.Intn(step); i < len(rsets); i += step {
+				a, _ := mk()
+				a.Paths = nil
+				for ti, t := range rsets[i].T {
+					var mt []aspec.Seg
+					for _, d := range deep {
+						mt = append(mt, aspec.Seg{K: "lit", S: d})
+					}
+					mt = append(mt, t...)
+					op := simpleOp("GET", mt)
+					op.OpID = fmt.Sprintf("op%d", ti)
+					a.Paths = append(a.Paths, aspec.PathItem{Template: mt, Ops: []aspec.Op{op}})
+				}
+				add(fmt.Sprintf("routenames-deep%d:%s+%s", di, aspec.TemplateString(rsets[i].T[0]), aspec.TemplateString(rsets[i].T[1])), a)
+			}
+		}
+	}
 	// names taken from the generator's own vocabulary: every word of an identifier or string in goag's sources and
 	// templates, as a literal path segment next to a variable segment (route function names), as a property name
 	// (field names next to generated methods) and as a query parameter name - the names most likely to meet a name
